@@ -96,6 +96,19 @@ def oracle(c, r):
             if r[0] == "ok" and r[1]["es"] == [] and (r[1]["lo"], r[1]["hi"]) == (t["lo"], t["hi"]):
                 return None
             return Failure(dict(sig, clause="empty-morph"), f"morph of two empty tiers gave {r[:2]}")
+        if r[0] == "err" and r[1] == "TextgridStateError":
+            # the one refusal rounding can cause (layer R, morph): a new duration so far below the ulp at the interval's place
+            # that start + duration is the start again (a target interval a few ulps long near 0 morphed onto a source at
+            # 10.0) - no float tier can hold that interval; a praatio error.  Met by the living histories, whose mutations insert
+            # such entries.  The walk below is the code's own arithmetic.
+            f0 = c.get("filter")
+            last_src_end = last_new_end = None
+            for e0, tg in zip(t["es"], u["es"]):
+                ns = e0[0] if last_new_end is None else last_new_end + (e0[0] - last_src_end)
+                ne = ns + ((tg[1] - tg[0]) if (f0 is None or e0[2] in f0) else (e0[1] - e0[0]))
+                if not ns < ne:
+                    return None
+                last_src_end, last_new_end = e0[1], ne
         if r[0] == "err":
             if not r[2]:
                 return Failure(dict(sig, clause="praatio-error", exc=r[1]), f"morph raised built-in {r[1]}")
